@@ -28,6 +28,7 @@ var refMutants = []refMutant{
 	{"every-second-around-skipped-by-call-next-method", refOpts{aroundSkipSecond: true}},
 	{"least-specific-primary-chosen", refOpts{primaryLeast: true}},
 	{"around-without-call-next-method-still-runs-the-rest", refOpts{stopRunsInner: true}},
+	{"remove-method-no-op-when-the-tuple-was-first-defined-with-an-unspecialised-parameter", refOpts{removeKeepsUnspecialised: true}},
 }
 
 // wouldFlag mirrors checker.check on the level of expectations: would the
